@@ -244,6 +244,24 @@ def check_malformed(schema, specs):
             out.append(("malformed-specifier:wrong-exception", "%r -> %r" % (s, e)))
             continue
         out.append(("malformed-specifier-accepted", repr(s)))
+    # the same through the convenience entry points, which add the specifiers themselves
+    import io
+    for s in specs:
+        for entry in ("loadConfigFile", "loadConfig"):
+            try:
+                if entry == "loadConfigFile":
+                    ZConfig.loadConfigFile(schema, io.StringIO("# empty\n"), MAIN, [s])
+                else:
+                    ZConfig.loadConfig(schema, "file:///zcv/does/not/exist.conf", [s])
+            except ZConfig.ConfigurationSyntaxError:
+                continue
+            except ZConfig.ConfigurationError as e:
+                out.append(("malformed-specifier-not-refused-when-added:%s" % entry, "%r -> %s: %s" % (s, type(e).__name__, str(e)[:120])))
+                continue
+            except Exception as e:  # noqa
+                out.append(("malformed-specifier:wrong-exception:%s" % entry, "%r -> %r" % (s, e)))
+                continue
+            out.append(("malformed-specifier-accepted:%s" % entry, repr(s)))
     return out
 
 
